@@ -698,18 +698,6 @@ DoubleSupport::isValid(const XalanDOMChar*      theString)
 
 
 
-inline double
-modfRound(double  theValue)
-{
-    double          intPart = 0;
-
-        std::modf(theValue + 0.5, &intPart);
-
-    return intPart;
-}
-
-
-
 double
 DoubleSupport::round(double     theValue)
 {
@@ -731,16 +719,15 @@ DoubleSupport::round(double     theValue)
     }
     else if (theValue > 0)
     {
-        // If the value is less than the maximum value for
-        // a long, this is the fastest way to do it.
-        if (theValue < LONG_MAX)
-        {
-            return long(theValue + 0.5);
-        }
-        else
-        {
-            return modfRound(theValue);
-        }
+        // Decide on the exact fractional part.  Adding 0.5 first
+        // rounds in floating point, which is wrong just below
+        // 0.5 and for odd integers above 2^52.
+        double          intPart = 0;
+
+        const double    fracPart =
+            std::modf(theValue, &intPart);
+
+        return fracPart >= 0.5 ? intPart + 1.0 : intPart;
     }
     else
     {
@@ -752,19 +739,7 @@ DoubleSupport::round(double     theValue)
         const double    fracPart = 
             std::modf(theValue, &intPart);
 
-        const double    theAdjustedValue =
-            fracPart == -0.5 ? theValue + 0.5 : theValue - 0.5;
-
-        // If the value is greater than the minimum value for
-        // a long, this is the fastest way to do it.
-        if (theAdjustedValue > LONG_MIN)
-        {
-            return long(theAdjustedValue);
-        }
-        else
-        {
-            return modfRound(theAdjustedValue);
-        }
+        return fracPart < -0.5 ? intPart - 1.0 : intPart;
     }
 }
 
